@@ -25,7 +25,7 @@ class FlatMieContribution(Contribution):
     def __init__(self,
                  flat_mix_ratio=1e-10, flat_bottomP=-1,
                  flat_topP=-1):
-        super().__init__('Mie')
+        super().__init__('FlatMie')
 
         self._mie_mix = flat_mix_ratio
         self._mie_bottom_pressure = flat_bottomP
